@@ -435,7 +435,13 @@ def run(R, P="C09"):
     for fq, want in (("decorators.get_async_fn", ["fn.asynq", "getattr(fn, 'async')", "fn", "sync_to_async_fn_wrapper", "None"]),
                      ("decorators.get_async_or_sync_fn", ["fn.asynq", "getattr(fn, 'async')", "fn"])):
         f = repo.fn(fq)
-        rs = [q.src(n.value) for n in q.scope_nodes(f.node) if isinstance(n, ast.Return) and n.value is not None]
+        rnodes = [n for n in q.scope_nodes(f.node) if isinstance(n, ast.Return) and n.value is not None]
+        rs = [q.src(n.value) for n in rnodes]
+        if len(rnodes) == 1 and isinstance(rnodes[0].value, ast.Name):
+            # single-exit form: the arms assign a result variable
+            vals = [v for k_, v in common.assigned_values(f.node, rnodes[0].value.id) if k_ == "expr"]
+            vals.sort(key=lambda v: (getattr(v, "lineno", 0), getattr(v, "col_offset", 0)))
+            rs = [q.src(v) for v in vals]
         R.check(rs == want, P + ".CLASSIFY", fq + ":returns", R.site(f), "%s returns %s" % (f.name, want), "%s returns %s" % (f.name, rs))
     # a marker attribute is read only where its presence was established
     def has_marker(attr):
